@@ -154,6 +154,13 @@ PLANS['C05'] = print_plan('Strictness and agreement of variants are proven by TL
                           'TLC proves Render(v) is one RFC 8259 text denoting v and StripWs(formatted) = unformatted; every real print variant must return the predicted bytes (differences validated by the TLA+ grammar), variants compared with each other')
 PLANS['C09'] = print_plan('TLC runs the buffer machine with noalloc for every tree, format and n in 0..len+8 and proves that no write reaches index n, that success implies the complete terminated text, that the success threshold lies in [len+1, len+6] and is monotone; the real call is made for every n in 0..len+16 on a buffer ending at an inaccessible page.',
                           'TLC explores the noalloc buffer machine for every tree x n and checks the write high-water mark, threshold window and monotonicity; cJSON_PrintPreallocated run for every n on guard-page buffers')
+# phase C: histories recorded from the real library (10 nodes, hundreds of calls) validated by Trace_Tree.tla
+def tracetree(histories, steps):
+    return {'name': 'trace', 'kind': 'tracetree', 'histories': histories, 'steps': steps}
+for _p in ('C06', 'C07', 'C11', 'C19'):
+    PLANS[_p]['quick'] = PLANS[_p]['quick'] + [tracetree(25, 160)]
+    PLANS[_p]['thorough'] = PLANS[_p]['thorough'] + [tracetree(400, 250)]
+    PLANS[_p]['rule'] = PLANS[_p]['rule'] + '; plus seeded random histories on the real library with up to 10 nodes (traces validated step by step by Trace_Tree.tla)'
 # C08 also covers parse and print under a refused request
 PLANS['C08']['quick'] = PLANS['C08']['quick'] + [parse_run('tok5fail', 'tok', 5, 1000, failinject=True), print_run('printQfail', 'quick', failinject=True)]
 PLANS['C08']['thorough'] = PLANS['C08']['thorough'] + [parse_run('tok7fail', 'tok', 7, 1000, failinject=True), parse_run('str2fail', 'str', 2, 1000, failinject=True),
@@ -434,7 +441,75 @@ def run_c20(prop, run, outdir, bins, seed, V, REPO):
     return res
 
 
+def run_tracetree(prop, run, outdir, bins, seed, V, REPO):
+    """phase C for the tree machine: random histories recorded from the real library, validated by Trace_Tree.tla"""
+    import subprocess, shutil, json, re, time
+    t0 = time.time()
+    res = {'name': run['name'], 'stdout': '', 'stderr': '', 'rc': 0, 'states': 0, 'transitions': 0, 'stats': {}, 'samples': [], 'tlc_error': None, 'traces': 0}
+    trace = os.path.join(outdir, run['name'] + '.ndjson'); stats = os.path.join(outdir, run['name'] + '.stats.json')
+    r = subprocess.run('%s treerand --prop %s --out %s --trace %s --stats %s --histories %d --steps %d --seed %d' %
+                       (bins['plain'], prop, outdir, trace, stats, run['histories'], run['steps'], seed), shell=True, capture_output=True, text=True)
+    out = [l for l in r.stdout.splitlines() if l.startswith('VIOLATION')]
+    try:
+        res['stats'] = json.load(open(stats))
+    except (OSError, ValueError):
+        if not out:
+            res['tlc_error'] = 'history recorder failed rc=%s %s' % (r.returncode, r.stderr[-300:])
+            return res
+    cfg = os.path.join(outdir, run['name'] + '.cfg')
+    open(cfg, 'w').write('CONSTANTS\n N = 10\n Keys = {}\n Strs = {}\n Nums = {}\n CircularLimit = 10000\nINIT Init\nNEXT Next\nINVARIANTS InvWellFormed InvNoLeak Accepted\nCHECK_DEADLOCK FALSE\n')
+    verdict = None
+    for attempt in range(2):       # a rejection is reported only if a second validation repeats it
+        md = os.path.join(outdir, 'md-' + run['name'])
+        t = subprocess.run('cd %s/spec && timeout 1800 tlc -workers 1 -metadir %s -config %s Trace_Tree.tla 2>&1' % (V, md, cfg), shell=True, capture_output=True, text=True, env=dict(os.environ, TRACE=trace))
+        shutil.rmtree(md, ignore_errors=True)
+        open(os.path.join(outdir, run['name'] + '.tlc.out'), 'w').write(t.stdout)
+        m = re.search(r'<<"TRACE-(ACCEPTED|REJECTED)", (\d+)>>', t.stdout)
+        inv = re.search(r'Invariant (InvWellFormed|InvNoLeak) is violated', t.stdout)
+        ms = None
+        for ms in re.finditer(r'(\d+) states generated, (\d+) distinct states found', t.stdout):
+            pass
+        if ms:
+            res['transitions'], res['states'] = int(ms.group(1)), int(ms.group(2))
+        if m and m.group(1) == 'ACCEPTED' and not inv:
+            verdict = ('ok', int(m.group(2))); break
+        if inv:
+            verdict = ('inv', inv.group(1))
+        elif m:
+            verdict = ('rej', int(m.group(2)))
+        else:
+            verdict = ('err', t.stdout[-300:])
+    if verdict[0] == 'ok':
+        res['traces'] = res['stats'].get('histories', 0)
+        try:
+            res['samples'] = open(trace).read().splitlines()[1:3]
+        except OSError:
+            pass
+    elif verdict[0] == 'err':
+        res['tlc_error'] = 'trace validation did not finish: ' + str(verdict[1])
+    else:
+        lines = open(trace).read().splitlines()
+        idx = verdict[1] if verdict[0] == 'rej' else None
+        ev = lines[idx - 1] if idx else ''
+        act = ''
+        try:
+            act = json.loads(ev)['a'][0]
+        except Exception:
+            pass
+        owners = {'C06'} | ({'C11'} if act == 'Duplicate' else set()) | ({'C19'} if act == 'SortObject' else set()) | ({'C07'} if verdict[0] == 'inv' else set())
+        if prop in owners or verdict[0] == 'inv':
+            rp = os.path.join(outdir, '%s-trace.case' % prop)
+            open(rp, 'w').write('# trace %s, event %s\n%s\n' % (trace, idx, ev))
+            what = ('invariant %s fails on the recorded heap' % verdict[1]) if verdict[0] == 'inv' else ('recorded step %d (%s) is not a step of Tree.tla: post-heap / result / query answers differ from every admitted outcome' % (idx, act))
+            out.append('VIOLATION property=%s replay=%s :: history recorded from the real library: %s' % (prop, rp, what))
+    res['stdout'] = '\n'.join(out) + ('\n' if out else '')
+    res['wall_s'] = round(time.time() - t0, 1)
+    return res
+
+
 def run_custom(kind, prop, run, outdir, bins, seed, V, REPO):
+    if kind == 'tracetree':
+        return run_tracetree(prop, run, outdir, bins, seed, V, REPO)
     if kind == 'c20':
         return run_c20(prop, run, outdir, bins, seed, V, REPO)
     raise SystemExit('check: unknown run kind %s' % kind)
